@@ -995,8 +995,41 @@ func (fr *Frame) callSiteClauses(n *vnode, instr *ssa.Call, callee *ssa.Function
 		if !(strings.HasSuffix(name, as.Callee) || strings.HasSuffix(short, as.Callee)) {
 			continue
 		}
-		key := fmt.Sprintf("assert-site.%d", ai)
-		ord := x.callSeqAt(key, instr)
+		// ordinal of this call site among the calls matching the clause, in source (SSA block) order
+		ord := 0
+		found := false
+		for _, b := range fr.fn.Blocks {
+			for _, in := range b.Instrs {
+				ci, isCall := in.(*ssa.Call)
+				if !isCall {
+					continue
+				}
+				if _, isB := ci.Common().Value.(*ssa.Builtin); isB {
+					continue
+				}
+				cn := "dynamic"
+				if f := ci.Common().StaticCallee(); f != nil {
+					cn = f.String()
+				} else if ci.Common().IsInvoke() {
+					cn = ci.Common().Method.FullName()
+				}
+				cs := strings.TrimSuffix(cn, "[int64]")
+				if !(strings.HasSuffix(cn, as.Callee) || strings.HasSuffix(cs, as.Callee)) {
+					continue
+				}
+				if ci == instr {
+					found = true
+					break
+				}
+				ord++
+			}
+			if found {
+				break
+			}
+		}
+		if !found {
+			ord = x.callSeqAt(fmt.Sprintf("assert-site.%d", ai), instr)
+		}
 		if as.Ord >= 0 && as.Ord != ord {
 			continue
 		}
